@@ -5,6 +5,7 @@ import (
 	"fmt"
 	"math/rand"
 	"sort"
+	"sync"
 
 	"github.com/ulikunitz/lz"
 	"verif/core"
@@ -47,8 +48,19 @@ type histObserver interface {
 	Finish(ps *PState) (nontrivial bool)
 }
 
+// OverlapCase: several histories that run at the same time on parser
+// instances of their own.
+type OverlapCase struct {
+	Sub []PCase `json:"sub"`
+}
+
 func (h *histProp) Plan(tier string, seed int64) []core.Segment {
 	var segs []core.Segment
+	if h.large && len(h.types) > 1 {
+		// distinct instances used from several goroutines at once must each
+		// behave as they do alone
+		segs = append(segs, core.Segment{Kind: "overlap", N: 3 * tierScale(tier, 5), Chunk: 1})
+	}
 	var names []string
 	for name := range h.fixed {
 		names = append(names, name)
@@ -147,6 +159,29 @@ func (h *histProp) KindCPU(kind, tier string) int {
 }
 
 func (h *histProp) Gen(kind string, idx int64, seed int64, tier string) core.Case {
+	if kind == "overlap" {
+		r := core.Rand(seed, h.id, kind, idx)
+		var oc OverlapCase
+		for g, typ := range []string{"GSAP", "OSAP", "GSAP", "OSAP", "HP", "BUP", "OSAP", "BDHP"} {
+			ok := false
+			for _, t := range h.types {
+				ok = ok || t == typ
+			}
+			if !ok {
+				typ = h.types[g%len(h.types)]
+			}
+			o := gen.Opts{MaxBuf: 3000, MinBuf: 500}
+			pc := GenPCase(r, typ, o, h.weights, 120, 20000)
+			for i := range pc.Ops {
+				if (pc.Ops[i].K == "write" || pc.Ops[i].K == "readfrom") && pc.Ops[i].A == 0 {
+					pc.Ops[i].B *= 1 + r.Intn(10)
+				}
+			}
+			pc.Cfg.TameBig()
+			oc.Sub = append(oc.Sub, pc)
+		}
+		return core.MkCase(h.id, kind, idx, seed, tier, oc)
+	}
 	class, typ := splitKind(kind)
 	s := seed
 	if class == "corpus" {
@@ -435,7 +470,60 @@ func (h *histProp) Gen(kind string, idx int64, seed int64, tier string) core.Cas
 	return core.MkCase(h.id, kind, idx, seed, tier, pc)
 }
 
+// runOverlap runs the sub-histories of an overlap case concurrently, each on
+// its own parser under its own observer, for three rounds.
+func (h *histProp) runOverlap(c *core.Case, st *core.Stats) []core.Violation {
+	oc, err := decode[OverlapCase](c)
+	if err != nil {
+		return []core.Violation{core.V(c, "harness", "bad case: %v", err)}
+	}
+	for round := 0; round < 3; round++ {
+		type res struct {
+			class, msg string
+			st         *core.Stats
+		}
+		out := make([]res, len(oc.Sub))
+		var wg sync.WaitGroup
+		start := make(chan struct{})
+		for g := range oc.Sub {
+			wg.Add(1)
+			go func(g int) {
+				defer wg.Done()
+				pc := oc.Sub[g]
+				sub := core.NewStats()
+				out[g].st = sub
+				defer func() {
+					if pv := recover(); pv != nil {
+						out[g].class, out[g].msg = "panic", fmtPanic(pv)
+					}
+				}()
+				<-start
+				ps, nerr := NewParserFor(pc.Cfg)
+				if nerr != nil {
+					return
+				}
+				obs := h.newObs(&pc, ps, c, sub)
+				out[g].class, out[g].msg, _ = RunHistory(ps, &pc, obs)
+			}(g)
+		}
+		close(start)
+		wg.Wait()
+		for g, o := range out {
+			st.Merge(o.st, 0)
+			if o.class != "" {
+				return []core.Violation{core.V(c, o.class, "%s cfg=%+v, one of %d parser instances used from goroutines of their own at the same time (round %d): %s", oc.Sub[g].Cfg.Type, oc.Sub[g].Cfg, len(oc.Sub), round, o.msg)}
+			}
+		}
+		st.Inc("overlapping_history_groups")
+	}
+	st.NonTrivial(c)
+	return nil
+}
+
 func (h *histProp) Run(c *core.Case, st *core.Stats) []core.Violation {
+	if c.Kind == "overlap" {
+		return h.runOverlap(c, st)
+	}
 	pc, err := decode[PCase](c)
 	if err != nil {
 		return []core.Violation{core.V(c, "harness", "bad case: %v", err)}
